@@ -51,7 +51,9 @@ pub fn deserialize(context: &mut DeserializationContext<'_>) -> (r: Result<Self>
         old(context).remaining().len() >= 1 && old(context).remaining()[0] == 0 ==> (match unleb_res(old(context).remaining().skip(1)) {
             Err(_) => r is Err,
             // unknown or transient index: an error, never a panic
-            Ok(i) => ((%(bad)s) ==> r is Err),
+            Ok(i) => ((%(bad)s) ==> r is Err)
+                // the constructor is selected by the stored index alone
+                && (r is Ok ==> r->Ok_0.ctor_index() == i),
         }),
 %(body)s
 }
@@ -215,9 +217,10 @@ def gen_enum_v0(d, expanded, H):
     ann_c = ("|context: &mut DeserializationContext<'_>| -> (cr: Result<Self>)\n"
              '    requires old(context).iwf(),\n'
              '    ensures final(context).iwf(), final(context).region_stack@.len() >= old(context).region_stack@.len(),\n'
-             '        cr is Ok ==> final(context).frame_eq(&*old(context)) && final(context).current.pos >= old(context).current.pos,\n{')
+             '        cr is Ok ==> final(context).frame_eq(&*old(context)) && final(context).current.pos >= old(context).current.pos,\n'
+             '        cr is Ok ==> cr->Ok_0.ctor_index() == IDX,\n{')
     db = re.sub(r'(deserializer\.read_constructor\(\d+usize as u32,\s*)\|_\|(\s*)\{', lambda m: m.group(1) + ann_t, db)
-    db = re.sub(r'(deserializer\.read_constructor\(\d+usize as u32,\s*)\|context\|(\s*)\{', lambda m: m.group(1) + ann_c, db)
+    db = re.sub(r'(deserializer\.read_constructor\((\d+)usize as u32,\s*)\|context\|(\s*)\{', lambda m: m.group(1) + ann_c.replace('IDX', m.group(2)), db)
     # cases with evolution steps: fields may come from several chunks or from defaults -- the
     # general (totality) summaries of read_field / read_optional_field
     rl = 'lemma_rf_any, lemma_rof_any' if cores else 'lemma_rf_tuple, lemma_rof_tuple'
